@@ -54,4 +54,41 @@ fn run(e: &Engine) {
     e.proptest("register-histories", e.tier.pick(60_000, 3_000_000), || history([1, 10, 0, 0, 1], 40, 2), check);
     e.require_fraction("double toggle between event reads", "history", 0.2);
     e.require_fraction("history with STATus:PRESet", "history", 0.2);
+    // bounded-exhaustive per bit: every (PTR, NTR, ENABle) setting of the bit x EVERY sequence of up to
+    // 5 (6) operations over {set the bit, clear it, read the event register, read the condition, *STB?}
+    let max_ops = if cfg!(debug_assertions) { 4u32 } else { e.tier.pick(5u32, 6) };
+    e.enumerate::<History, _, _>(
+        "every-filter-setting-and-toggle-sequence-per-bit",
+        32,
+        move |part, f| {
+            let reg = if part & 1 == 0 { Reg::Oper } else { Reg::Ques };
+            let bit = (part >> 1) as u16; // 0..=15
+            let mask = 1u16 << bit;
+            for filt in 0u8..8 {
+                let v = |on: bool| if on { mask as i32 } else { 0 };
+                let setup = Step { events: vec![], mav: false, tst: None, units: vec![(U::Ptr(reg, v(filt & 1 != 0)), 0), (U::Ntr(reg, v(filt & 2 != 0)), 0), (U::Enab(reg, v(filt & 4 != 0)), 0)] };
+                for len in 1..=max_ops {
+                    for code in 0..5u32.pow(len) {
+                        let mut steps = vec![setup.clone()];
+                        let mut c = code;
+                        for _ in 0..len {
+                            let op = c % 5;
+                            c /= 5;
+                            steps.push(match op {
+                                0 => Step { events: vec![DevEvent::SetBits(reg, mask)], mav: false, tst: None, units: vec![(U::Cond(reg), 0)] },
+                                1 => Step { events: vec![DevEvent::ClearBits(reg, mask)], mav: false, tst: None, units: vec![(U::Cond(reg), 0)] },
+                                2 => Step { events: vec![], mav: false, tst: None, units: vec![(U::Ev(reg), 0)] },
+                                3 => Step { events: vec![], mav: false, tst: None, units: vec![(U::Cond(reg), 0), (U::EnabQ(reg), 0)] },
+                                _ => Step { events: vec![], mav: false, tst: None, units: vec![(U::StbQ, 0)] },
+                            });
+                        }
+                        if !f(History { bounded: false, steps }) {
+                            return;
+                        }
+                    }
+                }
+            }
+        },
+        check,
+    );
 }
